@@ -104,8 +104,9 @@ check("C06",
       "allocation function itself and the bias tolerance off the comparison the criteria function builds: tau^2 + (1-theta) rmse^2 <= rmse^2. Loop part: "
       "the real Engine.price on the scripted process with solver-chosen answers never simulates above maximum_level, returns only after a passing bias "
       "test or at the maximum level, with every level within 1% of its last optimal size.",
-      "Trusted: z3; sqrt axioms; scripted process/criteria as in C05. Bounds: vectors of length <= 2/3; loop histories as C05. Outside: termination for "
-      "unbounded answers; alpha regression. Known findings: zero-cost levels get 0 samples; fall-through exit of the loop right after a level is added.",
+      "Trusted: z3; sqrt axioms; scripted process/criteria as in C05. Bounds: vectors of length <= 2/3; loop histories as C05, plus levels of 100 samples (per-level 1% rule) "
+      "and the bias test with 1-3 level means. Outside: termination for unbounded answers; the regression of the rates (numpy lstsq; one concrete "
+      "reference scenario with a zero level runs in the check's concrete validation, not a solver verdict). Known findings: zero-cost levels get 0 samples; fall-through exit of the loop right after a level is added.",
       TECH, "DESIGN.md section 3 C06")
 
 check("C07",
